@@ -21,7 +21,36 @@ ACCEPTS = re.compile(r"tokio::net::tcp::listener::TcpListener::accept$|quinn::en
                      r"common::frames::Frame::recv_from$|TproxyUdpSocket::recv_msg$")
 
 
+
+def rule_nb1(chk, prog):
+    """tokio's from_std contract: the std socket handed to UdpSocket/TcpStream/TcpListener::from_std must already be non-blocking.
+    tokio does not switch it; on a blocking descriptor the first recv after a datagram parks the worker thread in the kernel, and as
+    many silent peers as worker threads stop every listener, timer and the management API."""
+    n = 0
+    for f in prog.fns.values():
+        if f.crate != "redproxy_rs":
+            continue
+        for c in f.calls:
+            if not re.search(r"tokio::net::(udp::UdpSocket|tcp::stream::TcpStream|tcp::listener::TcpListener|unix::\w+::\w+)::from_std$", c.path or ""):
+                continue
+            n += 1
+            root = f.root_name(op_base(c.args[0])) if c.args and op_base(c.args[0]) is not None else None
+            ok = False
+            for g in f.calls:
+                if re.search(r"::set_nonblocking$", g.path or "") and len(g.args) >= 2 and f.int_of(g.args[1]) == 1 and f.dominates(g.bb, c.bb):
+                    groot = f.root_name(op_base(g.args[0])) if op_base(g.args[0]) is not None else None
+                    if groot is not None and groot == root:
+                        ok = True
+            chk.instance("NB1", c.where(), "the socket given to %s was made non-blocking first" % short(c.path), ok)
+            if not ok:
+                chk.finding("NB1", f.key, "blocking-socket", short(c.path), c.where(),
+                            "%s registers a std socket with tokio without a dominating set_nonblocking(true) on it: reads on the blocking descriptor park "
+                            "worker threads in the kernel; enough silent peers stall accept loops, timers and the management API" % f.path)
+    chk.floor("NB1", n, 1, "from_std registrations")
+
+
 def run(chk, prog):
+    rule_nb1(chk, prog)
     n_pairs = 0
     n_await = 0
     order = {}
